@@ -8,6 +8,8 @@ duration parsing and text/scanner are external.
 -/
 import DialsModel.Model.TfSpec
 import DialsModel.Lemmas.Tf
+import DialsModel.Lemmas.TfChain
+import DialsModel.Lemmas.TfCanon
 
 namespace Dials.C10
 open Dials Dials.Tf
@@ -217,5 +219,468 @@ theorem C10_empty_unset_chain' (fuel : Nat) (ms : List Mangler) (fs tfs : List F
     (ht : translate fuel ms fs = .ok tfs) :
     reverse fuel ms fs (nils tfs.length) = .ok (nils fs.length) :=
   C10_empty_unset_chain fuel ms fs tfs (fun m hm => Or.inl (hnr m hm)) hnp ht
+
+/-! ## Chain-level round trip (translate, fill, reverse) for arbitrary values
+
+Vocabulary (Lemmas/TfChain.lean): `Lossless m Dom Good` — a specification-level encoder `enc` for the
+mangler `m` (the direction opposite to `unmangle`) with its laws on the fields `Dom` and values
+`Good`; `encLayer` — the forward encoder of one layer (mirror image of `unmangleLayer`, recursing into
+struct-typed fields behind pointer / slice / array exactly where `mangleLayer` does); `encChain` —
+`encLayer` along the layers of a chain; `ChainGood` — the values are good for every layer they pass;
+`All2 R fs vs` — `R` holds position by position; `HG P` — the local condition `P` holds at a field and,
+hereditarily, at every field of the struct values below it (`WS = HG (fun _ _ _ => True)`: plain
+well-shapedness). -/
+
+/-- LAYER THEOREM (full: with recursion into nested struct types; Tier 2).  For a lossless mangler, a
+field list on which `mangleLayer` succeeds, and good values: reverse-translating the encoded values
+gives back the values, and the encoding fills exactly the translated fields. -/
+theorem C10_layer_roundtrip {m : Mangler} {Dom : FT → Prop} {Good : FT → Val → Prop} (L : Lossless m Dom Good)
+    (fuel : Nat) (fs fs' : List FT) (vs : List Val) (hm : mangleLayer fuel m fs = .ok fs')
+    (hg : All2 (fun f v => Dom f ∧ Good f v) fs vs) :
+    unmangleLayer fuel m fs (encLayer m L.enc fuel fs vs) = .ok vs ∧
+      (encLayer m L.enc fuel fs vs).length = fs'.length :=
+  (unmangleLayer_encLayer L fuel).1 fs fs' vs hm hg
+
+/-- CHAIN THEOREM (general: any chain of lossless manglers, recursing or not).  If `translate`
+succeeds and the values are good for every layer they pass, `reverse` of the encoded values is the
+original value list, and the encoding fills exactly the translated fields. -/
+theorem C10_chain_roundtrip (fuel : Nat) (ls : List LM) (fs tfs : List FT) (vs : List Val)
+    (ht : translate fuel (ls.map (·.m)) fs = .ok tfs) (hg : ChainGood fuel ls fs vs) :
+    reverse fuel (ls.map (·.m)) fs (encChain fuel ls fs vs) = .ok vs ∧
+      (encChain fuel ls fs vs).length = tfs.length :=
+  chain_roundtrip fuel ls fs tfs vs ht hg
+
+/-- The library's manglers are lossless (anonymous-flatten: see `C10_lossless_anon`), each on the
+stated fields / values:
+* alias — `HG (aliasP tags)`: well-shaped values; an aliased field is not of bare struct / array-of-struct type;
+* flatten — fields with `tySize < fuel` and every struct behind a pointer; the values `populate` can build;
+* set → slice — `HG setP`: set-typed fields hold nil or a set (no struct-keyed sets);
+* Duration substitution, tag copy, tag reformat — `WS`: well-shaped values;
+* string cast — fields whose type has an element type (`hasElemTy`: pointer / slice / array / map / set; the
+  real code calls `Type.Elem()`); `scGood parse fmt`: unset, or what `parse` makes of the formatted text;
+* text unmarshaler — `HG tuP`: text-unmarshalable fields hold nil or their text. -/
+theorem C10_lossless_library (tags : List String) (cfg : FlattenCfg) (fuelF : Nat)
+    (parse : String → Ty → Outcome Val) (fmt : Ty → Val → String) (src new tag : String)
+    (dec : List Char → Option (List (List Char))) (enc : CaseConv.Scheme) :
+    Nonempty (Lossless (aliasMangler tags) (fun _ => True) (HG (aliasP tags))) ∧
+    Nonempty (Lossless (flattenMangler cfg fuelF) (fun f => tySize f.2 < fuelF ∧ structsBehindPtr f.2 = true)
+      (flattenGood fuelF)) ∧
+    Nonempty (Lossless setSliceMangler (fun _ => True) (HG setP)) ∧
+    Nonempty (Lossless durSubMangler (fun _ => True) WS) ∧
+    Nonempty (Lossless (stringCastMangler parse) (fun f => hasElemTy f.2 = true) (scGood parse fmt)) ∧
+    Nonempty (Lossless textUnmarshalerMangler (fun _ => True) (HG tuP)) ∧
+    Nonempty (Lossless (tagCopyMangler src new) (fun _ => True) WS) ∧
+    Nonempty (Lossless (tagReformatMangler tag dec enc) (fun _ => True) WS) :=
+  ⟨⟨losslessAlias tags⟩, ⟨losslessFlatten cfg fuelF⟩, ⟨losslessSetSlice⟩, ⟨losslessDurSub⟩,
+    ⟨losslessStringCast parse fmt⟩, ⟨losslessTextUnmarshaler⟩, ⟨losslessTagCopy src new⟩,
+    ⟨losslessTagReformat tag dec enc⟩⟩
+
+theorem translate_cons_ok {fuel : Nat} {m : Mangler} {ms : List Mangler} {fs tfs : List FT}
+    (h : translate fuel (m :: ms) fs = .ok tfs) :
+    ∃ fs', mangleLayer fuel m fs = .ok fs' ∧ translate fuel ms fs' = .ok tfs := by
+  simp only [translate] at h
+  split at h
+  · rename_i fs' hm
+    exact ⟨fs', hm, h⟩
+  · cases h
+  · cases h
+
+/-- JSON / YAML / TOML decoder chain `[Duration substitution, tag copy]` (both recurse into nested
+structs): every well-shaped value list round-trips, and the translated values are the values
+themselves. -/
+theorem C10_roundtrip_decoder_chain (src new : String) (fuel : Nat) (fs tfs : List FT) (vs : List Val)
+    (ht : translate fuel [durSubMangler, tagCopyMangler src new] fs = .ok tfs) (hv : All2 WS fs vs) :
+    reverse fuel [durSubMangler, tagCopyMangler src new] fs vs = .ok vs ∧ vs.length = tfs.length := by
+  obtain ⟨fs1, h1, ht1⟩ := translate_cons_ok ht
+  obtain ⟨fs2, h2, ht2⟩ := translate_cons_ok ht1
+  have e1 : encLayer durSubMangler losslessDurSub.enc fuel fs vs = vs :=
+    (encLayer_id losslessDurSub (fun _ _ _ => rfl) fuel).1 fs fs1 vs h1 hv.and_true
+  have w1 : All2 WS fs1 vs := by
+    have := encLayer_WS losslessDurSub rfl fuel fs fs1 vs h1 hv.and_true
+    rwa [e1] at this
+  have e2 : encLayer (tagCopyMangler src new) (losslessTagCopy src new).enc fuel fs1 vs = vs :=
+    (encLayer_id (losslessTagCopy src new) (fun _ _ _ => rfl) fuel).1 fs1 fs2 vs h2 w1.and_true
+  have hg : ChainGood fuel [lmDurSub, lmTagCopy src new] fs vs := by
+    refine ⟨hv.and_true, fun fs' hm => ?_⟩
+    have hm' : mangleLayer fuel durSubMangler fs = .ok fs' := hm
+    rw [h1] at hm'; cases hm'
+    apply chainGood_last
+    show All2 _ fs1 (encLayer durSubMangler losslessDurSub.enc fuel fs vs)
+    rw [e1]
+    exact w1.and_true
+  have := C10_chain_roundtrip fuel [lmDurSub, lmTagCopy src new] fs tfs vs ht hg
+  have ec : encChain fuel [lmDurSub, lmTagCopy src new] fs vs = vs := by
+    simp only [encChain, lmDurSub, lmTagCopy, h1, h2, e1, e2]
+  rw [ec] at this
+  exact this
+
+/-- … with set → slice in front: every well-shaped value list whose set-typed fields hold nil or a set
+round-trips; the translated values are the set → slice encoding (sets become lists). -/
+theorem C10_roundtrip_decoder_chain_set (src new : String) (fuel : Nat) (fs tfs : List FT) (vs : List Val)
+    (ht : translate fuel [setSliceMangler, durSubMangler, tagCopyMangler src new] fs = .ok tfs)
+    (hv : All2 (HG setP) fs vs) :
+    ∃ tvals, tvals = encLayer setSliceMangler losslessSetSlice.enc fuel fs vs ∧ tvals.length = tfs.length ∧
+      reverse fuel [setSliceMangler, durSubMangler, tagCopyMangler src new] fs tvals = .ok vs := by
+  obtain ⟨fs1, h1, ht1⟩ := translate_cons_ok ht
+  have w1 : All2 WS fs1 (encLayer setSliceMangler losslessSetSlice.enc fuel fs vs) :=
+    encLayer_WS losslessSetSlice rfl fuel fs fs1 vs h1 hv.and_true
+  obtain ⟨hr, hl⟩ := C10_roundtrip_decoder_chain src new fuel fs1 tfs _ ht1 w1
+  refine ⟨_, rfl, hl, ?_⟩
+  rw [reverse_cons h1 hr]
+  exact ((unmangleLayer_encLayer losslessSetSlice fuel).1 fs fs1 vs h1 hv.and_true).1
+
+/-- Flag-source chain `[alias (recursing), flatten]`.  `fs1` are the fields after the alias layer, `w1`
+the alias encoding of the values (an aliased field's value is followed by nil for its alias copy, at
+every depth).  Every value list that is good for alias and whose alias encoding is one that flatten can
+restore has an encoding of the translated fields — the flattened leaves of `w1` — that reverses to it.
+(`C10_roundtrip_flag_chain_canon` below derives the second condition from a condition on `vs` alone.) -/
+theorem C10_roundtrip_flag_chain (tags : List String) (cfg : FlattenCfg) (fuelF fuel : Nat)
+    (fs fs1 tfs : List FT) (vs w1 : List Val)
+    (h1 : mangleLayer fuel (aliasMangler tags) fs = .ok fs1)
+    (h2 : mangleLayer fuel (flattenMangler cfg fuelF) fs1 = .ok tfs)
+    (hv : All2 (HG (aliasP tags)) fs vs)
+    (e1 : w1 = encLayer (aliasMangler tags) (losslessAlias tags).enc fuel fs vs)
+    (hd : ∀ f ∈ fs1, tySize f.2 < fuelF ∧ structsBehindPtr f.2 = true)
+    (hc : All2 (flattenGood fuelF) fs1 w1) :
+    ∃ tvals, tvals = ((fs1.zip w1).map fun p => flatLeaves fuelF p.1.2 p.2).flatten ∧
+      tvals.length = tfs.length ∧
+      reverse fuel [aliasMangler tags, flattenMangler cfg fuelF] fs tvals = .ok vs := by
+  subst e1
+  have ht : translate fuel ([lmAlias tags, lmFlatten cfg fuelF].map (·.m)) fs = .ok tfs := by
+    simp [translate, lmAlias, lmFlatten, h1, h2]
+  have hg : ChainGood fuel [lmAlias tags, lmFlatten cfg fuelF] fs vs := by
+    refine ⟨hv.and_true, fun fs' hm => ?_⟩
+    have hm' : mangleLayer fuel (aliasMangler tags) fs = .ok fs' := hm
+    rw [h1] at hm'; cases hm'
+    exact chainGood_last fuel (lmFlatten cfg fuelF) fs1 _ (All2.and_dom hd hc)
+  obtain ⟨hr, hl⟩ := C10_chain_roundtrip fuel _ fs tfs vs ht hg
+  have ec : encChain fuel [lmAlias tags, lmFlatten cfg fuelF] fs vs =
+      encLayer (flattenMangler cfg fuelF) (losslessFlatten cfg fuelF).enc fuel fs1
+        (encLayer (aliasMangler tags) (losslessAlias tags).enc fuel fs vs) := by
+    simp only [encChain, lmAlias, lmFlatten, h1, h2]
+  rw [ec, encLayer_noRecurse (losslessFlatten cfg fuelF) rfl fuel fs1 tfs _ h2 (All2.and_dom hd hc)] at hr hl
+  exact ⟨_, rfl, hl, hr⟩
+
+/-- Flag-source chain, with hypotheses on the ORIGINAL values only: every value list that is good for
+alias (well shaped; aliased fields not of bare struct / array-of-struct type) and flatten-canonical
+(`Canon`: every struct value sits behind exactly the pointers of its type, has one canonical value per
+field, and is allocated only if one of its fields is set) has an encoding of the translated fields that
+reverses to it.  `hd` is a condition on the translated field TYPES only (flatten's fuel; every struct
+behind a pointer — what Pointerify guarantees). -/
+theorem C10_roundtrip_flag_chain_canon (tags : List String) (cfg : FlattenCfg) (fuelF fuel : Nat)
+    (fs fs1 tfs : List FT) (vs : List Val)
+    (h1 : mangleLayer fuel (aliasMangler tags) fs = .ok fs1)
+    (h2 : mangleLayer fuel (flattenMangler cfg fuelF) fs1 = .ok tfs)
+    (hv : All2 (HG (aliasP tags)) fs vs) (hc : All2 Canon fs vs)
+    (hd : ∀ f ∈ fs1, tySize f.2 < fuelF ∧ structsBehindPtr f.2 = true) :
+    ∃ tvals, tvals.length = tfs.length ∧
+      reverse fuel [aliasMangler tags, flattenMangler cfg fuelF] fs tvals = .ok vs := by
+  obtain ⟨tvals, _, hl, hr⟩ := C10_roundtrip_flag_chain tags cfg fuelF fuel fs fs1 tfs vs _ h1 h2 hv rfl hd
+    (alias_flattenGood tags fuelF fuel fs fs1 vs h1 hv hc hd)
+  exact ⟨tvals, hl, hr⟩
+
+/-- flatten alone: canonical values are exactly recoverable (the explicit form of `flattenGood`) -/
+theorem C10_flatten_canon (fuel : Nat) (f : FT) (v : Val) (hsz : tySize f.2 < fuel)
+    (hbp : structsBehindPtr f.2 = true) (hc : Canon f v) :
+    populate fuel f.2 (flatLeaves fuel f.2 v) = .ok (v, [], !v.isNil) ∧
+      (flatLeaves fuel f.2 v).length = leafCount fuel f.2 := by
+  obtain ⟨hp, hl⟩ := populate_canon fuel f.2 hsz hbp v [] hc
+  rw [List.append_nil] at hp
+  exact ⟨hp, by rw [hl, leafCount_eq_leafN fuel f.2 hsz]⟩
+
+/-- Env-source chain `[alias, flatten, tag reformat, tag copy, string cast]`.  `fs1 … fs4` are the fields
+after the first four layers, `w1` the alias encoding of the values, `w2` the flattened leaves of `w1`;
+tag reformat and tag copy leave the values as they are (at every depth).  Every value list that is
+good for alias, whose alias encoding flatten can restore, whose leaves are well shaped (slices of
+structs are leaves that reformat / copy recurse into) and faithfully formatted by `fmt` for `parse`
+(the formatter hypothesis `hs`), every leaf type having an element type (`hel`: pointer / slice / array /
+map / set — what Pointerify produces; string cast calls `Type.Elem()`), has an encoding of the translated fields — the formatted texts of the
+leaves — that reverses to it. -/
+theorem C10_roundtrip_env_chain (tags : List String) (cfg : FlattenCfg) (fuelF fuel : Nat)
+    (tag : String) (dec : List Char → Option (List (List Char))) (enc : CaseConv.Scheme) (src new : String)
+    (parse : String → Ty → Outcome Val) (fmt : Ty → Val → String)
+    (fs fs1 fs2 fs3 fs4 tfs : List FT) (vs w1 w2 : List Val)
+    (h1 : mangleLayer fuel (aliasMangler tags) fs = .ok fs1)
+    (h2 : mangleLayer fuel (flattenMangler cfg fuelF) fs1 = .ok fs2)
+    (h3 : mangleLayer fuel (tagReformatMangler tag dec enc) fs2 = .ok fs3)
+    (h4 : mangleLayer fuel (tagCopyMangler src new) fs3 = .ok fs4)
+    (h5 : mangleLayer fuel (stringCastMangler parse) fs4 = .ok tfs)
+    (hv : All2 (HG (aliasP tags)) fs vs)
+    (e1 : w1 = encLayer (aliasMangler tags) (losslessAlias tags).enc fuel fs vs)
+    (hd : ∀ f ∈ fs1, tySize f.2 < fuelF ∧ structsBehindPtr f.2 = true)
+    (hc : All2 (flattenGood fuelF) fs1 w1)
+    (e2 : w2 = ((fs1.zip w1).map fun p => flatLeaves fuelF p.1.2 p.2).flatten)
+    (hw : All2 WS fs2 w2)
+    (hel : ∀ f ∈ fs2, hasElemTy f.2 = true)
+    (hs : All2 (scGood parse fmt) fs4 w2) :
+    ∃ tvals, tvals = (fs4.zip w2).map (fun p => scEnc fmt p.1.2 p.2) ∧
+      tvals.length = tfs.length ∧
+      reverse fuel [aliasMangler tags, flattenMangler cfg fuelF, tagReformatMangler tag dec enc,
+        tagCopyMangler src new, stringCastMangler parse] fs tvals = .ok vs := by
+  -- reformat and copy are the identity on values
+  have e3 : encLayer (lmTagReformat tag dec enc).m (lmTagReformat tag dec enc).L.enc fuel fs2 w2 = w2 :=
+    (encLayer_id (losslessTagReformat tag dec enc) (fun _ _ _ => rfl) fuel).1 fs2 fs3 _ h3 hw.and_true
+  have w3 : All2 WS fs3 w2 := by
+    have := encLayer_WS (losslessTagReformat tag dec enc) rfl fuel fs2 fs3 _ h3 hw.and_true
+    rwa [show encLayer (tagReformatMangler tag dec enc) (losslessTagReformat tag dec enc).enc fuel fs2 w2 = w2
+      from e3] at this
+  have e4 : encLayer (lmTagCopy src new).m (lmTagCopy src new).L.enc fuel fs3 w2 = w2 :=
+    (encLayer_id (losslessTagCopy src new) (fun _ _ _ => rfl) fuel).1 fs3 fs4 _ h4 w3.and_true
+  have e1' : encLayer (lmAlias tags).m (lmAlias tags).L.enc fuel fs vs = w1 := e1.symm
+  have e2' : encLayer (lmFlatten cfg fuelF).m (lmFlatten cfg fuelF).L.enc fuel fs1 w1 = w2 :=
+    (encLayer_noRecurse (losslessFlatten cfg fuelF) rfl fuel fs1 fs2 w1 h2 (All2.and_dom hd hc)).trans e2.symm
+  let ls := [lmAlias tags, lmFlatten cfg fuelF, lmTagReformat tag dec enc, lmTagCopy src new,
+    lmStringCast parse fmt]
+  have ht : translate fuel (ls.map (·.m)) fs = .ok tfs := by
+    simp [ls, translate, lmAlias, lmFlatten, lmTagReformat, lmTagCopy, lmStringCast, h1, h2, h3, h4, h5]
+  have hg : ChainGood fuel ls fs vs := by
+    refine ⟨hv.and_true, fun fs' hm => ?_⟩
+    have hm' : mangleLayer fuel (aliasMangler tags) fs = .ok fs' := hm
+    rw [h1] at hm'; cases hm'
+    rw [e1']
+    refine ⟨All2.and_dom hd hc, fun fs' hm => ?_⟩
+    have hm' : mangleLayer fuel (flattenMangler cfg fuelF) fs1 = .ok fs' := hm
+    rw [h2] at hm'; cases hm'
+    rw [e2']
+    refine ⟨hw.and_true, fun fs' hm => ?_⟩
+    have hm' : mangleLayer fuel (tagReformatMangler tag dec enc) fs2 = .ok fs' := hm
+    rw [h3] at hm'; cases hm'
+    rw [e3]
+    refine ⟨w3.and_true, fun fs' hm => ?_⟩
+    have hm' : mangleLayer fuel (tagCopyMangler src new) fs3 = .ok fs' := hm
+    rw [h4] at hm'; cases hm'
+    rw [e4]
+    have hel3 := mangleLayer_hasElemTy (m := tagReformatMangler tag dec enc)
+      (fun h t outs hm o ho => by
+        obtain ⟨h', rfl⟩ := tagReformat_mangle_ty tag dec enc h t outs hm
+        simp only [List.mem_singleton] at ho; subst ho; rfl) h3 hel
+    have hel4 := mangleLayer_hasElemTy (m := tagCopyMangler src new)
+      (fun h t outs hm o ho => by
+        obtain ⟨h', rfl⟩ := tagCopy_mangle_ty src new h t outs hm
+        simp only [List.mem_singleton] at ho; subst ho; rfl) h4 hel3
+    exact chainGood_last fuel (lmStringCast parse fmt) fs4 w2 (All2.and_dom hel4 hs)
+  obtain ⟨hr, hl⟩ := C10_chain_roundtrip fuel ls fs tfs vs ht hg
+  have ec : encChain fuel ls fs vs =
+      encLayer (stringCastMangler parse) (losslessStringCast parse fmt).enc fuel fs4 w2 := by
+    have h1' : mangleLayer fuel (lmAlias tags).m fs = .ok fs1 := h1
+    have h2' : mangleLayer fuel (lmFlatten cfg fuelF).m fs1 = .ok fs2 := h2
+    have h3' : mangleLayer fuel (lmTagReformat tag dec enc).m fs2 = .ok fs3 := h3
+    have h4' : mangleLayer fuel (lmTagCopy src new).m fs3 = .ok fs4 := h4
+    have h5' : mangleLayer fuel (lmStringCast parse fmt).m fs4 = .ok tfs := h5
+    simp only [ls, encChain, h1', e1', h2', e2', h3', e3, h4', e4, h5']
+    rfl
+  rw [ec] at hr hl
+  cases fuel with
+  | zero => simp [mangleLayer] at h5
+  | succ k =>
+    rw [encLayer_stringCast] at hr hl
+    exact ⟨_, rfl, hl, hr⟩
+
+/-- Env-source chain with the alias / flatten conditions on the ORIGINAL values (`hv`, `hc`); what remains
+on the translated values are the conditions on the flattened leaves `w2`: well-shapedness (`hw`) and
+the formatter hypothesis (`hs`). -/
+theorem C10_roundtrip_env_chain_canon (tags : List String) (cfg : FlattenCfg) (fuelF fuel : Nat)
+    (tag : String) (dec : List Char → Option (List (List Char))) (enc : CaseConv.Scheme) (src new : String)
+    (parse : String → Ty → Outcome Val) (fmt : Ty → Val → String)
+    (fs fs1 fs2 fs3 fs4 tfs : List FT) (vs w2 : List Val)
+    (h1 : mangleLayer fuel (aliasMangler tags) fs = .ok fs1)
+    (h2 : mangleLayer fuel (flattenMangler cfg fuelF) fs1 = .ok fs2)
+    (h3 : mangleLayer fuel (tagReformatMangler tag dec enc) fs2 = .ok fs3)
+    (h4 : mangleLayer fuel (tagCopyMangler src new) fs3 = .ok fs4)
+    (h5 : mangleLayer fuel (stringCastMangler parse) fs4 = .ok tfs)
+    (hv : All2 (HG (aliasP tags)) fs vs) (hc : All2 Canon fs vs)
+    (hd : ∀ f ∈ fs1, tySize f.2 < fuelF ∧ structsBehindPtr f.2 = true)
+    (e2 : w2 = ((fs1.zip (encLayer (aliasMangler tags) (losslessAlias tags).enc fuel fs vs)).map
+      fun p => flatLeaves fuelF p.1.2 p.2).flatten)
+    (hw : All2 WS fs2 w2)
+    (hel : ∀ f ∈ fs2, hasElemTy f.2 = true)
+    (hs : All2 (scGood parse fmt) fs4 w2) :
+    ∃ tvals, tvals = (fs4.zip w2).map (fun p => scEnc fmt p.1.2 p.2) ∧
+      tvals.length = tfs.length ∧
+      reverse fuel [aliasMangler tags, flattenMangler cfg fuelF, tagReformatMangler tag dec enc,
+        tagCopyMangler src new, stringCastMangler parse] fs tvals = .ok vs :=
+  C10_roundtrip_env_chain tags cfg fuelF fuel tag dec enc src new parse fmt fs fs1 fs2 fs3 fs4 tfs vs _ w2
+    h1 h2 h3 h4 h5 hv rfl hd (alias_flattenGood tags fuelF fuel fs fs1 vs h1 hv hc hd) e2 hw hel hs
+
+/-- anonymous flatten is lossless on `HG anonP` (embedded structs / pointers to structs / leaves; an
+unset embedded `*struct` has no bare struct-typed field; a set one has a set field) -/
+theorem C10_lossless_anon (fuel : Nat) : Nonempty (Lossless (anonMangler fuel) (fun _ => True) (HG anonP)) :=
+  ⟨losslessAnon fuel⟩
+
+/-- the env source's regenerated chain (F12a) is the chain of `C10_roundtrip_env_chain` -/
+theorem C10_env_chain_is_shipped (fuelF : Nat) (parse : String → Ty → Outcome Val) :
+    chainOf fuelF parse Facts.chainEnv =
+      [aliasMangler ["dials", "dialsenv"], flattenMangler ⟨"dials", .upperCamel, .casePreservingSnake⟩ fuelF,
+       tagReformatMangler "dials" CaseConv.decodeGoTags .upperSnake, tagCopyMangler "dials" "dialsenv",
+       stringCastMangler parse] := by
+  rfl
+
+/-! ### Non-vacuity: concrete nested types and values on which the hypotheses of the corollaries hold
+and the round trip computes -/
+
+namespace Ex
+
+def getOk (o : Outcome (List FT)) : List FT := match o with | .ok l => l | _ => []
+def tInt : Ty := .ptr (.basic (.int .int) false)
+def tStr : Ty := .ptr (.basic .str false)
+def tBool : Ty := .ptr (.basic .bool false)
+
+/-! #### flag chain: `struct { Srv *struct { Port *int `dialsflag:"port" dialsflagalias:"p"`; Name *string }; Dbg *bool }`
+with `Srv.Port = 8080`, everything else unset -/
+namespace Flag
+def tags : List String := ["dials", "dialsflag"]
+def cfg : FlattenCfg := ⟨"dials", .upperCamel, .kebab⟩
+def inner : Fields :=
+  .cons "Port" [("dialsflag", "port"), ("dialsflagalias", "p")] false tInt (.cons "Name" [] false tStr .nil)
+def fs : List FT := [(⟨"Srv", [], false⟩, .ptr (.struct inner)), (⟨"Dbg", [], false⟩, tBool)]
+def vs : List Val := [.ptr (.struct [.ptr (.i 8080), .nilv]), .nilv]
+def fs1 : List FT := getOk (mangleLayer 10 (aliasMangler tags) fs)
+def tfs : List FT := getOk (mangleLayer 10 (flattenMangler cfg 20) fs1)
+def w1 : List Val := [.ptr (.struct [.ptr (.i 8080), .nilv, .nilv]), .nilv]
+
+theorem h1 : mangleLayer 10 (aliasMangler tags) fs = .ok fs1 := rfl
+theorem h2 : mangleLayer 10 (flattenMangler cfg 20) fs1 = .ok tfs := rfl
+/-- the alias layer doubled the nested field `Port` -/
+theorem fs1_shape : ∃ hA hB n1 g1 a1 n2 g2 a2 n3 g3 a3, fs1 =
+    [(hA, .ptr (.struct (.cons n1 g1 a1 tInt (.cons n2 g2 a2 tInt (.cons n3 g3 a3 tStr .nil))))), (hB, tBool)] :=
+  ⟨_, _, _, _, _, _, _, _, _, _, _, rfl⟩
+theorem e1 : w1 = encLayer (aliasMangler tags) (losslessAlias tags).enc 10 fs vs := rfl
+theorem hv : All2 (HG (aliasP tags)) fs vs := by
+  simp [fs, vs, inner, HG, Hered, aliasP, tInt, tStr, tBool, bareStructish]
+theorem hd : ∀ f ∈ fs1, tySize f.2 < 20 ∧ structsBehindPtr f.2 = true := by
+  obtain ⟨hA, hB, n1, g1, a1, n2, g2, a2, n3, g3, a3, h⟩ := fs1_shape
+  simp [h, tySize, fieldsSize, structsBehindPtr, underPtr, fieldsBehindPtr, tInt, tStr, tBool]
+theorem hc : All2 (flattenGood 20) fs1 w1 := by
+  obtain ⟨hA, hB, n1, g1, a1, n2, g2, a2, n3, g3, a3, h⟩ := fs1_shape
+  rw [h]
+  refine ⟨⟨[.ptr (.i 8080), .nilv, .nilv], true, rfl, ?_⟩, ⟨[.nilv], false, rfl, ?_⟩, True.intro⟩
+  · simp [populate, populate.fields, stripPtrs, ptrDepth, Fields.toList, Val.isNil, wrapPtrs, tInt, tStr]
+  · simp [populate, stripPtrs, Val.isNil, tBool]
+
+/-- the hypotheses of `C10_roundtrip_flag_chain` hold here, and the four flattened flag values
+`[8080, unset, unset, unset]` reverse to the nested original -/
+example : reverse 10 [aliasMangler tags, flattenMangler cfg 20] fs [.ptr (.i 8080), .nilv, .nilv, .nilv] = .ok vs := by
+  obtain ⟨tvals, e, _, hr⟩ := C10_roundtrip_flag_chain tags cfg 20 10 fs fs1 tfs vs w1 h1 h2 hv e1 hd hc
+  have : tvals = [.ptr (.i 8080), .nilv, .nilv, .nilv] := by
+    obtain ⟨hA, hB, n1, g1, a1, n2, g2, a2, n3, g3, a3, h⟩ := fs1_shape
+    rw [e, h]
+    simp [w1, flatLeaves, flatLeaves.go, flatLeaves.strip, stripPtrs, ptrDepth, Fields.toList, tInt, tStr, tBool]
+  rw [this] at hr
+  exact hr
+
+theorem hcanon : All2 Canon fs vs := by
+  simp [fs, vs, inner, Canon, CanonAt, wrapPtrs, anySet, Val.isNil, tInt, tStr, tBool]
+
+/-- … and the hypotheses of `C10_roundtrip_flag_chain_canon` (conditions on the original values only) -/
+example : ∃ tvals, tvals.length = tfs.length ∧
+    reverse 10 [aliasMangler tags, flattenMangler cfg 20] fs tvals = .ok vs :=
+  C10_roundtrip_flag_chain_canon tags cfg 20 10 fs fs1 tfs vs h1 h2 hv hcanon hd
+end Flag
+
+/-! #### decoder chain with set → slice: `struct { Timeout *time.Duration `dials:"timeout"`;
+Peers []struct { Name string `dials:"name"`; TTL time.Duration }; Seen map[string]struct{} }` -/
+namespace Decoder
+def peer : Fields := .cons "Name" [("dials", "name")] false (.basic .str false) (.cons "TTL" [] false .dur .nil)
+def fs : List FT :=
+  [(⟨"Timeout", [("dials", "timeout")], false⟩, .ptr .dur),
+   (⟨"Peers", [], false⟩, .slice (.struct peer)),
+   (⟨"Seen", [], false⟩, .set (.basic .str false))]
+def vs : List Val :=
+  [.ptr (.i 5), .list [.struct [.s "a", .i 1], .struct [.s "b", .i 2]], .setv [.s "x"]]
+def chain : List Mangler := [setSliceMangler, durSubMangler, tagCopyMangler "dials" "json"]
+def tfs : List FT := getOk (translate 10 chain fs)
+theorem ht : translate 10 chain fs = .ok tfs := rfl
+theorem hv : All2 (HG setP) fs vs := by
+  simp [fs, vs, peer, HG, Hered, setP]
+
+/-- the hypotheses of `C10_roundtrip_decoder_chain_set` hold here (the recursion goes into the elements of
+`Peers`), and the decoded values — the set as a list — reverse to the original -/
+example : reverse 10 chain fs
+    [.ptr (.i 5), .list [.struct [.s "a", .i 1], .struct [.s "b", .i 2]], .list [.s "x"]] = .ok vs := by
+  obtain ⟨tvals, e, _, hr⟩ := C10_roundtrip_decoder_chain_set "dials" "json" 10 fs tfs vs ht hv
+  have : tvals = [.ptr (.i 5), .list [.struct [.s "a", .i 1], .struct [.s "b", .i 2]], .list [.s "x"]] :=
+    e.trans rfl
+  rw [this] at hr
+  exact hr
+
+/-- … and without the set field, `C10_roundtrip_decoder_chain`: the values are untouched -/
+example : reverse 10 [durSubMangler, tagCopyMangler "dials" "json"] (fs.take 2) (vs.take 2) = .ok (vs.take 2) :=
+  (C10_roundtrip_decoder_chain "dials" "json" 10 (fs.take 2)
+    (getOk (translate 10 [durSubMangler, tagCopyMangler "dials" "json"] (fs.take 2))) (vs.take 2) rfl
+    (by simp [fs, vs, peer, HG, Hered, PTrue])).1
+end Decoder
+
+/-! #### env chain (the shipped parameters), all fields `*string`, with a toy parse.String / formatter -/
+namespace Env
+def tags : List String := ["dials", "dialsenv"]
+def cfg : FlattenCfg := ⟨"dials", .upperCamel, .casePreservingSnake⟩
+def inner : Fields :=
+  .cons "Port" [("dials", "port"), ("dialsenvalias", "SRV_P")] false tStr (.cons "Name" [] false tStr .nil)
+def fs : List FT := [(⟨"Srv", [], false⟩, .ptr (.struct inner)), (⟨"Dbg", [], false⟩, tStr)]
+def vs : List Val := [.ptr (.struct [.ptr (.s "8080"), .nilv]), .ptr (.s "yes")]
+def parse : String → Ty → Outcome Val := fun str _ => .ok (.ptr (.s str))
+def fmt : Ty → Val → String := fun _ v => match v with | .ptr (.s x) => x | _ => ""
+abbrev m1 := aliasMangler tags
+abbrev m2 := flattenMangler cfg 20
+abbrev m3 := tagReformatMangler "dials" CaseConv.decodeGoTags .upperSnake
+abbrev m4 := tagCopyMangler "dials" "dialsenv"
+abbrev m5 := stringCastMangler parse
+def fs1 := getOk (mangleLayer 10 m1 fs)
+def fs2 := getOk (mangleLayer 10 m2 fs1)
+def fs3 := getOk (mangleLayer 10 m3 fs2)
+def fs4 := getOk (mangleLayer 10 m4 fs3)
+def tfs := getOk (mangleLayer 10 m5 fs4)
+theorem h1 : mangleLayer 10 m1 fs = .ok fs1 := rfl
+theorem h2 : mangleLayer 10 m2 fs1 = .ok fs2 := rfl
+theorem h3 : mangleLayer 10 m3 fs2 = .ok fs3 := rfl
+theorem h4 : mangleLayer 10 m4 fs3 = .ok fs4 := rfl
+theorem h5 : mangleLayer 10 m5 fs4 = .ok tfs := rfl
+def w1 : List Val := [.ptr (.struct [.ptr (.s "8080"), .nilv, .nilv]), .ptr (.s "yes")]
+def w2 : List Val := [.ptr (.s "8080"), .nilv, .nilv, .ptr (.s "yes")]
+theorem e1 : w1 = encLayer m1 (losslessAlias tags).enc 10 fs vs := rfl
+theorem fs1_shape : ∃ hA hB n1 g1 a1 n2 g2 a2 n3 g3 a3, fs1 =
+    [(hA, .ptr (.struct (.cons n1 g1 a1 tStr (.cons n2 g2 a2 tStr (.cons n3 g3 a3 tStr .nil))))), (hB, tStr)] :=
+  ⟨_, _, _, _, _, _, _, _, _, _, _, rfl⟩
+theorem fs2_shape : ∃ hA hB hC hD, fs2 = [(hA, tStr), (hB, tStr), (hC, tStr), (hD, tStr)] := ⟨_, _, _, _, rfl⟩
+theorem fs4_shape : ∃ hA hB hC hD, fs4 = [(hA, tStr), (hB, tStr), (hC, tStr), (hD, tStr)] := ⟨_, _, _, _, rfl⟩
+theorem hv : All2 (HG (aliasP tags)) fs vs := by
+  simp [fs, vs, inner, HG, Hered, aliasP, tStr, bareStructish]
+theorem hd : ∀ f ∈ fs1, tySize f.2 < 20 ∧ structsBehindPtr f.2 = true := by
+  obtain ⟨hA, hB, n1, g1, a1, n2, g2, a2, n3, g3, a3, h⟩ := fs1_shape
+  simp [h, tySize, fieldsSize, structsBehindPtr, underPtr, fieldsBehindPtr, tStr]
+theorem hc : All2 (flattenGood 20) fs1 w1 := by
+  obtain ⟨hA, hB, n1, g1, a1, n2, g2, a2, n3, g3, a3, h⟩ := fs1_shape
+  rw [h]
+  refine ⟨⟨[.ptr (.s "8080"), .nilv, .nilv], true, rfl, ?_⟩, ⟨[.ptr (.s "yes")], true, rfl, ?_⟩, True.intro⟩
+  · simp [populate, populate.fields, stripPtrs, ptrDepth, Fields.toList, Val.isNil, wrapPtrs, tStr]
+  · simp [populate, stripPtrs, Val.isNil, tStr]
+theorem e2 : w2 = ((fs1.zip w1).map fun p => flatLeaves 20 p.1.2 p.2).flatten := by
+  obtain ⟨hA, hB, n1, g1, a1, n2, g2, a2, n3, g3, a3, h⟩ := fs1_shape
+  rw [h]
+  simp [w1, w2, flatLeaves, flatLeaves.go, flatLeaves.strip, stripPtrs, ptrDepth, Fields.toList, tStr]
+theorem hw : All2 WS fs2 w2 := by
+  obtain ⟨hA, hB, hC, hD, h⟩ := fs2_shape
+  simp [h, w2, HG, PTrue, Hered, tStr]
+theorem hel : ∀ f ∈ fs2, hasElemTy f.2 = true := by
+  obtain ⟨hA, hB, hC, hD, h⟩ := fs2_shape
+  simp [h, tStr]
+theorem hs : All2 (scGood parse fmt) fs4 w2 := by
+  obtain ⟨hA, hB, hC, hD, h⟩ := fs4_shape
+  simp [h, w2, scGood, parse, fmt, scBoxed, tStr]
+
+/-- the hypotheses of `C10_roundtrip_env_chain` hold here, and the four environment texts
+`["8080", unset, unset, "yes"]` reverse to the nested original -/
+example : reverse 10 [m1, m2, m3, m4, m5] fs [.ptr (.s "8080"), .nilv, .nilv, .ptr (.s "yes")] = .ok vs := by
+  obtain ⟨tvals, e, _, hr⟩ := C10_roundtrip_env_chain tags cfg 20 10 "dials" CaseConv.decodeGoTags .upperSnake
+    "dials" "dialsenv" parse fmt fs fs1 fs2 fs3 fs4 tfs vs w1 w2 h1 h2 h3 h4 h5 hv e1 hd hc e2 hw hel hs
+  have : tvals = [.ptr (.s "8080"), .nilv, .nilv, .ptr (.s "yes")] := by
+    obtain ⟨hA, hB, hC, hD, h⟩ := fs4_shape
+    rw [e, h]
+    simp [w2, scEnc, fmt]
+  rw [this] at hr
+  exact hr
+end Env
+
+end Ex
 
 end Dials.C10
